@@ -442,6 +442,8 @@ static void a_fence(int mo) {
   if (is_rel(mo)) { me->fence_rel = me->vc; me->has_fence_rel = true; me->vc.c[me->id]++; }
 }
 
+void check_sync_object(uintptr_t a, size_t n) { heap_check(a, n, true); }
+
 void mem_reset_run() {
   if (g_loc) g_loc->clear();
   if (g_obj) g_obj->clear();
